@@ -2,11 +2,16 @@
 
 use serde_json::Value;
 
+mod alloclog;
+mod chain;
 mod common;
 mod framing;
 mod outframe;
 
 pub use common::Tier;
+
+#[global_allocator]
+static ALLOC: alloclog::LoggingAlloc = alloclog::LoggingAlloc;
 
 fn usage() -> ! {
     eprintln!("usage: zcheck <subcommand> [--tier quick|thorough]\n       zcheck --replay <file>\nsubcommands: framing cancel");
@@ -49,6 +54,8 @@ fn main() {
         "framing" => framing::run_c01(tier),
         "cancel" => framing::run_c07(tier),
         "outframe" => outframe::run(tier),
+        "chain" => chain::run_c06(tier),
+        "borrow" => chain::run_c11(tier),
         _ => usage(),
     };
     std::process::exit(code);
@@ -59,6 +66,7 @@ fn replay(v: &Value, path: &str) -> i32 {
     let r = match prop {
         "C01" | "C07" => framing::replay(v),
         "C02" => outframe::replay(v),
+        "C06" | "C11" => chain::replay(v),
         _ => {
             eprintln!("MACHINERY: no replay handler for property `{prop}`");
             return 2;
